@@ -198,3 +198,81 @@ def single_precision_decls(f):
                 str(n.args[0].value).replace(' ', '') in ('float', 'float*'):
             out.append(('<float> cast', n))
     return out
+
+
+def event_race(sl):
+    """One pass of a simulator main loop evaluated (templates.StrExec) on a table of values: clock c, next requested time point tp,
+    total propensity L, sampled waiting time E, next delay-queue time Q, next volume-step time V.  The loop is an event race: the new
+    clock is the earliest candidate (the sampled reaction if L > 0; the time point where the loop stops there; the queue; the volume
+    clock), and what happens - a reaction is drawn (sample_discrete), a queue slot is delivered (advance_time), a volume step is taken
+    (get_volume_step) or nothing - is the candidate that won.  How ties are broken is left open.  Returns (problems, evaluations)."""
+    from .templates import StrExec, UNKNOWN
+    key = sl.key
+    has_q = key in ('DelaySSASimulator', 'DelayVolumeSSASimulator')
+    has_v = key in ('VolumeSSASimulator', 'DelayVolumeSSASimulator')
+    problems = []
+    n = 0
+    c = 2.0
+    for tp in (2.5, 4.0):
+        for L in (0.0, 3.0):
+            for E in ((0.1, 1.0, 5.0) if L > 0 else (None,)):
+                for Q in ((2.2, 3.0, 9.0) if has_q else (None,)):
+                    for V in ((2.3, 3.5, 8.0) if has_v else (None,)):
+                        seen = []
+
+                        def hook(nd, ex):
+                            nm = src(nd.func).split('.')[-1]
+                            if nm == 'array_sum':
+                                return L
+                            if nm == 'exponential_rv':
+                                return E if E is not None else UNKNOWN
+                            if nm == 'get_next_queue_time':
+                                return Q if Q is not None else UNKNOWN
+                            if nm == 'sample_discrete':
+                                seen.append('reaction')
+                                return 0
+                            if nm == 'advance_time':
+                                seen.append('queue')
+                                return UNKNOWN
+                            if nm == 'get_volume_step':
+                                seen.append('volume')
+                                return 0.0
+                            return None
+                        env = {'current_time': c, 'c_timepoints': [1.0, tp, 50.0], 'current_index': 1, 'num_timepoints': 3, 'num_species': 1,
+                               'num_reactions': 1, 'delta_t': 1.0, 'dt': 1.0, 'Lambda': 0.0, 'proposed_time': 0.0, 'reaction_fired': 0, 'rule_step': 1,
+                               'move_to_queued_time': 0, 'step_type': 0, 'current_volume': 1.0, 'cell_divided': 0, 'final_time': 50.0,
+                               'next_queue_time': V if V is not None else 0.0, 'next_vol_time': V if V is not None else 0.0,
+                               'next_queued_reaction_time': 0.0, 'computed_delay': 0.0, 'reaction_choice': 0}
+                        ex = StrExec(env, tracked=set(), call_hook=hook)
+                        try:
+                            ex.run(sl.loop.body)
+                        except Exception as e:      # _Break / _Continue at the top level of the body: the pass is over
+                            if type(e).__name__ not in ('_Break', '_Continue'):
+                                raise
+                        n += 1
+                        new = ex.env.get('current_time')
+                        tag = 'clock %s, next time point %s, Lambda %s%s%s%s' % (c, tp, L, '' if E is None else ', waiting time %s' % E,
+                                                                              '' if Q is None else ', queue at %s' % Q, '' if V is None else ', volume step at %s' % V)
+                        if ex.aborted or not isinstance(new, float):
+                            raise AnalysisError('%s: loop body not evaluated for %s (%s, clock %r)' % (key, tag, ex.aborted, new))
+                        cand = {}
+                        if L > 0:
+                            cand['reaction'] = c + E
+                        if L == 0 or key in ('SSASimulator', 'DelaySSASimulator'):
+                            cand['timepoint'] = tp
+                        if has_q:
+                            cand['queue'] = Q
+                        if has_v:
+                            cand['volume'] = V
+                        best = min(cand.values())
+                        winners = {k_ for k_, v_ in cand.items() if abs(v_ - best) < 1e-12}
+                        acts = [a_ for a_ in seen]
+                        if abs(new - best) > 1e-9:
+                            problems.append('%s: the clock goes to %s, the earliest event is %s at %s' % (tag, new, '/'.join(sorted(winners)), best))
+                        elif len(acts) > 1:
+                            problems.append('%s: more than one event is carried out in one pass (%s)' % (tag, acts))
+                        elif acts and acts[0] not in winners:
+                            problems.append('%s: %s is carried out although %s came first' % (tag, acts[0], '/'.join(sorted(winners))))
+                        elif not acts and 'timepoint' not in winners:
+                            problems.append('%s: nothing happens although %s is due' % (tag, '/'.join(sorted(winners))))
+    return problems, n
